@@ -1,6 +1,6 @@
 """Iterator rules: R-ESI (exact-size / wiring / fusedness) and R-CURSOR (raw-pointer lifetime
 extension discipline of the IterMut types)."""
-from .core import walk, strip, term_str, component, const_int
+from .core import walk, strip, term_str, component, const_int, foreign_expansion
 
 IT = "std::iter::Iterator"
 DEI = "std::iter::DoubleEndedIterator"
@@ -400,7 +400,7 @@ def raw_extension_sites(view):
                 if s["k"] == "assign" and s["rv"]["k"] == "ref":
                     pl = s["rv"]["place"]
                     if pl["proj"] and pl["proj"][0]["k"] == "deref" and f.local_ty(pl["local"]).get("k") == "ptr":
-                        if s["span"]["exp"]:
+                        if foreign_expansion(s["span"]):
                             continue
                         root = f
                         while root.is_closure:
